@@ -42,6 +42,22 @@ theorem live_of_mem {a : A} (hn : (a.mods.map (·.uid)).Nodup) {l : AMod} (hl : 
     a.live l.uid = some l :=
   Spec.live_some.mpr ⟨get_of_mem a.mods hn l hl, hal⟩
 
+/-- no table entry beyond the uids handed out -/
+theorem sim_fresh {cfg : Cfg} {a : A} {s : State} (hs : Sim cfg a s) (u : Nat) (hu : s.nextUid < u) : s.find u = none := by
+  cases hf : s.find u with
+  | none => rfl
+  | some m =>
+    have hu0 : u ≠ 0 := by omega
+    obtain ⟨am, ham⟩ := Option.isSome_iff_exists.mp ((hs.live u hu0).mpr (by simp [hf]))
+    obtain ⟨hg, _⟩ := Spec.live_some.mp ham
+    have : am.uid ∈ a.mods.map (·.uid) := List.mem_map.mpr ⟨am, Spec.get_mem hg, rfl⟩
+    rw [hs.uids, Spec.get_uid hg] at this
+    obtain ⟨k, hk, hk'⟩ := List.mem_map.mp this
+    have := List.mem_range.mp hk
+    rw [hs.nacc] at this
+    omega
+
+
 /-! ## `checkAcks` through a simulation at the state where `send_ack` runs -/
 
 /-- `x`: the abstract state `checkAcks` is evaluated on; `b`: an abstract state that simulates the model state `sL` in
